@@ -74,10 +74,11 @@ func (r *ObRun) setup() *Ctx {
 		if d.Kind == "stub" && d.Attrs["group"] == "" {
 			active = true // default stubs are always on
 		}
-		if uses[d.Func] || (d.Attrs["group"] != "" && uses[d.Attrs["group"]]) {
+		qual := d.Pkg[strings.LastIndex(d.Pkg, "/")+1:] + "." + d.Func
+		if (uses[d.Func] && d.Pkg == r.Dir.Pkg) || uses[qual] || (d.Attrs["group"] != "" && uses[d.Attrs["group"]]) {
 			active = true
 		}
-		if nouse[d.Func] || (d.Attrs["group"] != "" && nouse[d.Attrs["group"]]) {
+		if (nouse[d.Func] && d.Pkg == r.Dir.Pkg) || nouse[qual] || (d.Attrs["group"] != "" && nouse[d.Attrs["group"]]) {
 			active = false
 		}
 		if !active {
@@ -96,7 +97,7 @@ func (r *ObRun) setup() *Ctx {
 	if pv := r.attr("prove", ""); pv != "" {
 		var found *Directive
 		for _, d := range r.Ld.dirs {
-			if d.Kind != "ob" && d.Func == pv {
+			if d.Kind != "ob" && d.Func == pv && d.Pkg == r.Dir.Pkg {
 				found = d
 			}
 		}
@@ -181,10 +182,14 @@ func (r *ObRun) discharge(timeout time.Duration, workers int) {
 		ob.Mode = mode
 		wg.Add(1)
 		sem <- struct{}{}
+		to := timeout
+		if ob.Kind == "reach" && len(r.Uses) > 0 && to > 8*time.Second {
+			to = 8 * time.Second // satisfiability through contracts is hard for NIA solvers; see main.go on reach-unknown
+		}
 		go func() {
 			defer wg.Done()
 			defer func() { <-sem }()
-			dischargeOne(ob, mode, solvers, timeout, r.Inputs)
+			dischargeOne(ob, mode, solvers, to, r.Inputs)
 		}()
 	}
 	wg.Wait()
